@@ -7,7 +7,8 @@ from core import Corr, Violation, run_driver
 from extract import pyexpr, classes
 
 ID = "C01"
-LEAN_TARGETS = ["MlVerif.Gen.C01", "MlVerif.Model.Params", "MlVerif.Lemmas.Params", "MlVerif.Properties.C01"]
+LEAN_TARGETS = ["MlVerif.Gen.C01", "MlVerif.Model.Params", "MlVerif.Lemmas.Params", "MlVerif.Lemmas.ParamsSpec",
+                "MlVerif.Properties.C01"]
 PROPERTY_FILE = "MlVerif/Properties/C01.lean"
 DRIVER = "Drivers/C01.lean"
 TRUSTED = [
@@ -1149,6 +1150,22 @@ def check_learner_rebind(ns, vs, stats):
                             {"kind": "rebind", "class": "SkBaseTransformLearner"}, out[:3].tolist(), b.predict(X)[:3].tolist()))
 
 
+PRIORITY = [
+    "SkBase.set_params:other-keys-changed", "SkBaseTransformLearner.set_params:returns-None",
+    "SkBaseTransformLearner.set_params:value-not-set:method", "SkBaseTransformLearner.set_params:method_-bound-to-old-model",
+    "SkBaseTransformLearner.set_params:raises:<own>", "SkBaseTransformStacking.set_params:returns-None",
+    "SkBaseTransformStacking.set_params:raises:models_<i>__*:i>=10", "ClassifierAfterKMeans.clone:raises",
+    "ClassifierAfterKMeans.set_params:returns-None", "SkBaseTransformStacking.clone:raises-after-set:method",
+]
+
+
+def _priority(key):
+    for i, p in enumerate(PRIORITY):
+        if key.startswith(p):
+            return i
+    return len(PRIORITY)
+
+
 def search(ctx, hints):
     ctx.shadow(need_cython=True)
     import warnings
@@ -1231,7 +1248,7 @@ def search(ctx, hints):
         size = len(json.dumps(v.input, default=str))
         if v.key not in best or size < best[v.key][0]:
             best[v.key] = (size, v)
-    out = [v for _, v in sorted(best.values(), key=lambda t: t[1].key)]
+    out = [v for _, v in sorted(best.values(), key=lambda t: (_priority(t[1].key), t[1].key))]
     return out, {"evaluations": stats["evaluations"], "distinct_nontrivial": len(stats["nontrivial"]),
                  "behaviour_checks": stats.get("behaviour_checks", 0), "samples": []}
 
